@@ -655,7 +655,10 @@ class ParseHexDigits(FunctionSpec):
         ]
 
     def str_method(self, run: Run, s0: Any, name: str, args, kwargs, n):
-        if name == "encode" and not args and isinstance(s0, Sym) and s0.t.eq(self.D):
+        # digits.encode() / digits.encode("utf-8", "surrogatepass"): UTF-8 bytes; with surrogatepass a lone surrogate is
+        # encoded like any other non-ASCII code point (lead byte >= 0xED) instead of raising - the instance axioms U1/U2 hold
+        # for both, the plain form can raise UnicodeEncodeError on a lone surrogate (not modelled: repaired in /repo 899ef0f)
+        if name == "encode" and (not args or tuple(args) == ("utf-8", "surrogatepass")) and not kwargs and isinstance(s0, Sym) and s0.t.eq(self.D):
             return SeqV(self.Bts, "int")
         return NotImplemented
 
